@@ -54,6 +54,20 @@ def _fields_of(v):
     return ups, o
 
 
+def eval0(prog, t, depth=0):
+    """Evaluate nullary crate constructor calls (WordSeparator::new(), Penalties::new(), ...) through their bodies."""
+    if not isinstance(t, tuple) or not t or depth > 6:
+        return t
+    if t[0] == "call" and t[1].startswith("crate::") and t[2] == ():
+        b = prog.body(t[1])
+        if b is not None and len(b.cfg.returns) == 1:
+            s = sym_of(b)
+            r = prog.simp(s.val((0, ()), b.cfg.returns[0], "term"), b)
+            return eval0(prog, r, depth + 1)
+        return t
+    return tuple(eval0(prog, x, depth + 1) if isinstance(x, tuple) else x for x in t)
+
+
 def check(prog, rep, prop):
     rule = prop + ".OPT"
 
@@ -115,4 +129,33 @@ def check(prog, rep, prop):
                     bad.append((g, describe(v, bb)[:60] if v else "?"))
             rb.check(good, "builder:%s" % f, "Options::%s(x) replaces exactly `%s`" % (f, f), "field-by-field",
                      "the builder Options::%s does not simply replace `%s`: %s" % (f, f, bad))
+        # defaults behind the constructors (feature dependent)
+        from .common import has_feature
+        ws = eval0(prog, ("call", "crate::word_separators::WordSeparator::new", ()))
+        want_ws = ("adt", "word_separators::WordSeparator", "UnicodeBreakProperties" if has_feature(prog, "unicode-linebreak") else "AsciiSpace", ())
+        rd = Rule(rep, rule, "crate::word_separators::WordSeparator::new", site="src/word_separators.rs")
+        rd.check(ws == want_ws, "default-separator", "WordSeparator::new() is %s in this configuration" % want_ws[2], str(ws)[:80],
+                 "WordSeparator::new() returns %s; documented default for this feature set is %s" % (str(ws)[:100], want_ws[2]))
+        wa = eval0(prog, ("call", "crate::wrap_algorithms::WrapAlgorithm::new", ()))
+        pen_new = ("call", "crate::wrap_algorithms::optimal_fit::Penalties::new", ())
+        if has_feature(prog, "smawk"):
+            pv = eval0(prog, pen_new)
+            okwa = wa[0] == "adt" and wa[2] == "OptimalFit" and wa[3] and wa[3][0][1] == pv
+            want_p = {"nline_penalty": 1000, "overflow_penalty": 2500, "short_last_line_fraction": 4,
+                      "short_last_line_penalty": 25, "hyphen_penalty": 25}
+            got_p = {}
+            if pv[0] == "adt":
+                for n_, v_ in pv[3]:
+                    if v_[0] == "int":
+                        got_p[n_] = v_[1]
+                    elif v_[0] == "bin" and v_[1] == "Mul" and v_[2][0] == "int" and v_[3][0] == "int":
+                        got_p[n_] = v_[2][1] * v_[3][1]
+            rp = Rule(rep, rule, "crate::wrap_algorithms::optimal_fit::Penalties::new", site="src/wrap_algorithms/optimal_fit.rs")
+            rp.check(got_p == want_p, "default-penalties", "Penalties::new() has the documented values (1000, 50*50, 4, 25, 25)", str(got_p),
+                     "Penalties::new() yields %s; documented defaults are %s" % (got_p, want_p))
+        else:
+            okwa = wa == ("adt", "wrap_algorithms::WrapAlgorithm", "FirstFit", ())
+        ra = Rule(rep, rule, "crate::wrap_algorithms::WrapAlgorithm::new", site="src/wrap_algorithms.rs")
+        ra.check(okwa, "default-algorithm", "WrapAlgorithm::new() is %s in this configuration" % ("OptimalFit(Penalties::new())" if has_feature(prog, "smawk") else "FirstFit"),
+                 str(wa)[:80], "WrapAlgorithm::new() returns %s" % str(wa)[:120])
     guarded(rep, rule, "crate::options", body)
